@@ -867,6 +867,11 @@ class GCodeBuilder(GCodeCore):
         args = { **params, "X": move.x, "Y": move.y, "Z": move.z }
         statement = self._get_statement(mode, args, comment)
 
+        # The probe may travel up to the target, so it has to be within
+        # bounds even if the final position of the axes is unknown
+
+        self.state._validate_axes(target_axes)
+
         # Set position to unknown for any axis involved
 
         target_axes = target_axes.mask(move.x, move.y, move.z)
